@@ -14,6 +14,8 @@ mkoverlay() {
 # buildmc <builddir> : builds the model-checker binary from $REPO's current working tree.
 buildmc() {
   local b="$1"
-  mkoverlay "$b" || return 2
+  local extra=()
+  [ -f "$b/extra-overlay.json" ] && extra=("$b/extra-overlay.json")
+  mkoverlay "$b" "${extra[@]}" || return 2
   (cd "$REPO" && go build -tags verif -overlay "$b/overlay.json" -o "$b/mc" ./internal/verifmc/cmd/mc) || return 2
 }
